@@ -408,7 +408,7 @@ def check(run):
     impl = vlib.build_harness("h_jtext")
     model = vlib.build_model("jtext")
     mult = 1 if proofs_ok else 10
-    N = (3000 if tier == "quick" else 60000) * mult
+    N = (3000 if tier == "quick" else 150000) * mult
 
     # ---------------- documents: (bytes, in_scope, kind)
     docs = []
